@@ -165,7 +165,7 @@ PROPS = {
     },
     "C05": {
         "level": "proof",
-        "lean_modules": ["CrabProofs.Props.C05", "CrabProofs.Props.C05Itv", "CrabProofs.Props.C05Chain"],
+        "lean_modules": ["CrabProofs.Props.C05", "CrabProofs.Props.C05Itv", "CrabProofs.Props.C05Chain", "CrabProofs.Props.C05Zones"],
         "components": [dict(FIX_COMPONENT, timeout=600)] + wchain_components(),
         "rule": "(1) same iterator harness as C06; every run is executed under a wall-clock watchdog; the model needs finite fuel on every generated CFG. (2) widening chains x_i = x_{i-1} widen y_i over 25 shipped domain instantiations and the wrapped_interval scalar (all widths): y_i independent values, loop-body images F(x_{i-1}) and F(x_{i-1}) | x0; plain widening, widening_thresholds with random threshold sets, delayed widening; adversarial sequences (ever-growing bounds, alternating variables, new relations, constants jumping over thresholds) and realistic loop bodies; every witness of both arguments must satisfy the result, the chain must reach a stationary suffix within 60-300 steps; narrowing of decreasing pairs must keep the second argument's states; non-trivial = at least two non-stationary steps",
         "assumptions": ["the widening chain condition is proved for intervals, the interval domain, congruences, constants and signs; for the other shipped domains it is tested by the chain harness (no stationary suffix within N steps is reported, a run cannot prove non-termination)", "inter-procedural recursion loops are only exercised by the C09 harness under its watchdog"],
